@@ -115,6 +115,7 @@ def gen_program(draw, pp, cfg, profile=None):
     g = _Gen(pp, subs)
     world = g.world
     world.sub_one_in = profile.get('sub_one_in', 10)
+    world.dup_wells = profile.get('dup_wells', False)      # lists of wells may name a well more than once
     objects = []
     for _ in range(draw(st.integers(1, 3))):
         op = benchgen.gen_container(world, draw, profile)
